@@ -238,6 +238,7 @@ type params struct {
 	issMode  string // static | host (op.IssuerFromHost) | forwarded (op.IssuerFromForwardedOrHost) | custom (... WithIssuerFromCustomHeaders)
 	atIDSuffix string // the storage's access-token ids are "at<n>" + this (no ':')
 	sweep     int   // >= 0: slot of the Unicode sweep (subject unicodeSubjects[sweep], opaque token, a flow that reads it back)
+	uiSplit   bool  // storage style: SetUserinfoFromScopes does the standard claims, the optional SetUserinfoFromRequest only adds the custom ones
 	uiReplace bool  // storage style: SetUserinfoFrom* REPLACE the destination struct instead of setting fields of it
 	upstream string // forwarded / custom: the Host the provider sees behind the proxy; "" = the request arrives directly (no header: fallback to Host)
 	customs  []string // the custom:<name> scopes added to the request (claim-name dimension)
@@ -519,6 +520,7 @@ func gen(r drv.Rand, i int, nKeys int, histSlot bool, sweep int) params {
 		}
 	}
 	p.uiReplace = r.Chance(1, 3)
+	p.uiSplit = r.Chance(1, 2)
 	p.router = opfix.Router(i % 2)
 	p.flow = flows[(i/2)%len(flows)]
 	if sweep >= 0 {
@@ -764,6 +766,9 @@ func setup(p params, sk signState, provAlgs []string) (*refstore.Store, *opfix.F
 	st := opfix.NewStd()
 	st.EnableRichClaims()             // every standard scope yields a claim group (refstore/ext_c06.go)
 	st.EnableCustomUserinfoClaims()   // custom:<n> also yields the userinfo claim <n> (ID tokens)
+	if p.uiSplit {
+		st.EnableUserinfoSplit() // real work in BOTH userinfo hooks, the optional one relying on the first
+	}
 	if p.uiReplace {
 		st.EnableUserinfoReplace() // the storage assigns a whole record to the userinfo it is handed
 	}
@@ -1681,7 +1686,7 @@ func oneCaseRot(p params, sk, sk2 signState, rot int, st *refstore.Store, f *opf
 			tepol = "noscopes"
 		}
 	}
-	tags := []string{"subject_bytes=" + byteClass(res.rqSub), "tokenid_bytes=" + byteClass(p.atIDSuffix), fmt.Sprintf("sweep=%v", p.sweep >= 0), "uistyle=" + map[bool]string{true: "replace", false: "fields"}[p.uiReplace], "tepolicy=" + tepol, fmt.Sprintf("actor=%v", res.rqActor != ""), "client=" + p.cid, "issuer=" + issKind, "aud=" + audClass(res.rqAud, res.client), "claimnames=" + nameClass(p.customs),
+	tags := []string{fmt.Sprintf("uisplit=%v", p.uiSplit), "subject_bytes=" + byteClass(res.rqSub), "tokenid_bytes=" + byteClass(p.atIDSuffix), fmt.Sprintf("sweep=%v", p.sweep >= 0), "uistyle=" + map[bool]string{true: "replace", false: "fields"}[p.uiReplace], "tepolicy=" + tepol, fmt.Sprintf("actor=%v", res.rqActor != ""), "client=" + p.cid, "issuer=" + issKind, "aud=" + audClass(res.rqAud, res.client), "claimnames=" + nameClass(p.customs),
 		"router=" + p.router.String(), "flow=" + p.flow, "at=" + atKind, "alg=" + string(sk.alg), fmt.Sprintf("skew=%d", p.skew),
 		fmt.Sprintf("idlife=%d", p.idLife), fmt.Sprintf("atlife=%d", p.atLife), "subject_colon=" + colon, "openid=" + openid,
 		"assert=" + emit.Bool(p.assert), fmt.Sprintf("offset=%d", p.offset), fmt.Sprintf("custom=%v", contains(res.rqScopes, "custom:x") || contains(res.rqScopes, "custom:y")),
@@ -1874,7 +1879,7 @@ func main() {
 		history(r, p, sk0(p, algs), algs, pool, w, tl)
 	}
 	err := w.Close(emit.Meta{Property: "C06", Tier: cfg.Tier, Seed: cfg.Seed,
-		Rule: "one case = one token response: a complete flow (code, implicit id_token / id_token token, refresh, device, client_credentials, jwt-bearer, token-exchange for access / refresh / ID token) run over HTTP recorders against the Provider or LegacyServer router on refstore; flow and router cycle deterministically, the rest is drawn from the PRNG: signing key (RS256, PS256, ES256, ES384, ES512, EdDSA; two key materials per algorithm under the SAME kid, kid shared across algorithms in half of the cases; published with use sig or without use, with further keys before / after it: previous key, an enc key and a key of another type under the same kid, rarely a clashing signature key), access-token type, client clock skew (0, +-30 s), ID/access-token lifetimes, scope set (15 base sets plus a random extra standard scope: with/without openid, every subset pattern of profile/email/phone/address, offline_access, custom:x/y; the storage serves a distinct claim group per standard scope and marks userinfo scopes that reach the private-claims lookup), restricted scopes, userinfo-assertion flag, subject (also with ':', unknown to the user store, case / white-space neighbours of other subjects, keyword-like values; a sixth of the cases and every slot of the Unicode sweep - each 8th slot, mostly opaque tokens, flows that read the token back - take the next of 27 subjects that cover U+0080-U+00FF completely, i.e. every UTF-8 continuation byte 0x80-0xBF, C1 controls, NBSP, soft hyphen, Latin Extended, Greek, Cyrillic, Hebrew, Arabic, CJK, Hangul, emoji with ZWJ, combining marks, BOM, the 2/3/4-byte boundaries, with and without ':'), the storage's access-token ids (at<n>, or at<n> plus such a Unicode suffix), client (web, or the same registration as desk), issuer strategy (static; or - every other block of all flows x routers plus a quarter of the rest - derived from each request: op.IssuerFromHost, or op.IssuerFromForwardedOrHost with the Forwarded header or with a custom header, where a reverse proxy in front of the provider moves the external host into that header and hands every request on with the SAME upstream Host, or lets it through directly; five external hosts incl. a port and mixed case), storage style of the userinfo calls (sets fields of the destination / replaces the whole struct), the storage-defined audience (default, empty, the exact client id, near misses of the client id: case variants, U+017F / U+212A fold variants, white space / %20 / + / tab / LF around it, trailing slash; other values; several; for authorization, device and token-exchange requests), custom claim names (half of the cases add 1-2 scopes custom:<n>, which the storage turns into the private claim <n> of a JWT access token and the userinfo claim <n> of an ID token: exact names, ASCII-case variants and U+017F / U+212A fold variants of the registered members this case's tokens are certain to carry, near misses that fold to no member, variants of sid / scope), the token-exchange storage policy of the fixture (plain, or ValidateTokenExchangeRequest retargets the request's subject - another known / unknown user - and / or empties its scopes; the request may ask for scope drop, which the storage removes; a third of the exchanges present an actor_token of a third user: the case names the request's FINAL subject / scopes and the actor), nonce/acr/state (also white space at the ends, null / 0 / false / [], longer than 1 KiB and 4 KiB), amr, auth time, and the verifier configuration (consistent in most cases; default algorithm list, short offset against a negative skew as inconsistent ones). Every fourth slot is a multi-issuance history in one store/provider (tag hist=): issue, replace the storage's signing key (same kid new material and back; new kid new material with the old key still published; same kid other algorithm), issue again - or two providers alive at once with the same kid and different key material, issuing alternately, or the signing key replaced after the 1st / 2nd Storage.SigningKey call WITHIN the request under test (new kid, mostly another hash family, both keys published), or one dynamic-issuer provider serving external host A, host B, host A - by Host, or both through the same proxy upstream Host by Forwarded / custom header, B sometimes directly (two_issuers), or one provider serving a request that carries every optional field (nonce, acr, amr, audience, auth time, custom claims), then a request of another flow / maybe the other client for the same subject that OMITS them, then the rich request for the other client, then the first again (omit_after); each response is a case of its own whose input names the key current at that issuance and which is verified against the /keys document served at that time. Claims are compared as the library's own decoder reads the signed payload (json.Unmarshal into oidc.IDTokenClaims / oidc.AccessTokenClaims). Every case issues tokens, so non-trivial = all; distinct = distinct (input, model path class: flow x token kind x refresh token x verdicts).",
+		Rule: "one case = one token response: a complete flow (code, implicit id_token / id_token token, refresh, device, client_credentials, jwt-bearer, token-exchange for access / refresh / ID token) run over HTTP recorders against the Provider or LegacyServer router on refstore; flow and router cycle deterministically, the rest is drawn from the PRNG: signing key (RS256, PS256, ES256, ES384, ES512, EdDSA; two key materials per algorithm under the SAME kid, kid shared across algorithms in half of the cases; published with use sig or without use, with further keys before / after it: previous key, an enc key and a key of another type under the same kid, rarely a clashing signature key), access-token type, client clock skew (0, +-30 s), ID/access-token lifetimes, scope set (15 base sets plus a random extra standard scope: with/without openid, every subset pattern of profile/email/phone/address, offline_access, custom:x/y; the storage serves a distinct claim group per standard scope and marks userinfo scopes that reach the private-claims lookup), restricted scopes, userinfo-assertion flag, subject (also with ':', unknown to the user store, case / white-space neighbours of other subjects, keyword-like values; a sixth of the cases and every slot of the Unicode sweep - each 8th slot, mostly opaque tokens, flows that read the token back - take the next of 27 subjects that cover U+0080-U+00FF completely, i.e. every UTF-8 continuation byte 0x80-0xBF, C1 controls, NBSP, soft hyphen, Latin Extended, Greek, Cyrillic, Hebrew, Arabic, CJK, Hangul, emoji with ZWJ, combining marks, BOM, the 2/3/4-byte boundaries, with and without ':'), the storage's access-token ids (at<n>, or at<n> plus such a Unicode suffix), client (web, or the same registration as desk), issuer strategy (static; or - every other block of all flows x routers plus a quarter of the rest - derived from each request: op.IssuerFromHost, or op.IssuerFromForwardedOrHost with the Forwarded header or with a custom header, where a reverse proxy in front of the provider moves the external host into that header and hands every request on with the SAME upstream Host, or lets it through directly; five external hosts incl. a port and mixed case), storage style of the userinfo calls (sets fields of the destination / replaces the whole struct; both hooks fill everything / SetUserinfoFromScopes does the standard claims and the optional SetUserinfoFromRequest only adds the custom ones), the storage-defined audience (default, empty, the exact client id, near misses of the client id: case variants, U+017F / U+212A fold variants, white space / %20 / + / tab / LF around it, trailing slash; other values; several; for authorization, device and token-exchange requests), custom claim names (half of the cases add 1-2 scopes custom:<n>, which the storage turns into the private claim <n> of a JWT access token and the userinfo claim <n> of an ID token: exact names, ASCII-case variants and U+017F / U+212A fold variants of the registered members this case's tokens are certain to carry, near misses that fold to no member, variants of sid / scope), the token-exchange storage policy of the fixture (plain, or ValidateTokenExchangeRequest retargets the request's subject - another known / unknown user - and / or empties its scopes; the request may ask for scope drop, which the storage removes; a third of the exchanges present an actor_token of a third user: the case names the request's FINAL subject / scopes and the actor), nonce/acr/state (also white space at the ends, null / 0 / false / [], longer than 1 KiB and 4 KiB), amr, auth time, and the verifier configuration (consistent in most cases; default algorithm list, short offset against a negative skew as inconsistent ones). Every fourth slot is a multi-issuance history in one store/provider (tag hist=): issue, replace the storage's signing key (same kid new material and back; new kid new material with the old key still published; same kid other algorithm), issue again - or two providers alive at once with the same kid and different key material, issuing alternately, or the signing key replaced after the 1st / 2nd Storage.SigningKey call WITHIN the request under test (new kid, mostly another hash family, both keys published), or one dynamic-issuer provider serving external host A, host B, host A - by Host, or both through the same proxy upstream Host by Forwarded / custom header, B sometimes directly (two_issuers), or one provider serving a request that carries every optional field (nonce, acr, amr, audience, auth time, custom claims), then a request of another flow / maybe the other client for the same subject that OMITS them, then the rich request for the other client, then the first again (omit_after); each response is a case of its own whose input names the key current at that issuance and which is verified against the /keys document served at that time. Claims are compared as the library's own decoder reads the signed payload (json.Unmarshal into oidc.IDTokenClaims / oidc.AccessTokenClaims). Every case issues tokens, so non-trivial = all; distinct = distinct (input, model path class: flow x token kind x refresh token x verdicts).",
 		Extra: map[string]any{"clock_ambiguous": tl.ambiguous, "setup_failed": tl.failedSetup}})
 	if err != nil {
 		fmt.Fprintln(os.Stderr, err)
